@@ -176,40 +176,43 @@ CLAIMS = {
              'C12_one_track_per_mmsi, C12_rejected_unchanged (an update raises iff it is older than its track or, in ordered '
              'mode, older than some track; then the whole state is unchanged and nothing is emitted), C12_spec_most_recent, '
              'C12_spec_never_reported are proved in Coq for all finite histories of update / pop_track / cleanup / clock '
-             'advance, polymorphic in the attribute value type. ' + TIE,
+             'advance / assignment of a new TTL / switch of an ordered tracker to unordered / the public insert_or_update() (ordered mode: with non-decreasing timestamps on that route, trk_run_ok) (the specification judges every '
+             'update by the mode and every expiry by the TTL in force), polymorphic in the attribute value type. ' + TIE,
         note=BASE_NOTE + 'time is an explicit argument of the model (the harness patches time.time and uses dyadic '
              'timestamps); the AISTrack attribute list and the attributes each message class carries are read by reflection '
              'and passed to the model as data.',
         design='DESIGN.md section 7, C12'),
     'C13': dict(
-        technique='Coq invariant proof over all histories with subscriber callbacks that may raise (TTL exactness after every '
-                  'update/cleanup that returns, cache lower bound, ordered mode sortedness; structural invariants in every '
-                  'state), refutation witnesses for the open finding + differential check under a controlled clock with '
-                  'raising subscribers',
+        technique='Coq invariant proof over all histories with subscriber callbacks that may raise and with a configuration '
+                  'that changes (TTL exactness after every update/cleanup that returns, cache lower bound, ordered mode '
+                  'sortedness -- in every reachable state), refutation witnesses on the unrepaired bodies for the repaired '
+                  'defect + differential check under a controlled clock with raising subscribers',
         text='Over the general model (callbacks return or raise; pop_track swallows KeyError after deleting the track; every '
-             'other exception escapes through insert/update/cleanup as in the Python): C13_expiry_exact (after every cleanup() '
-             'or update() at time now that RETURNS, for every TTL, both modes and every behaviour of the subscribers, every '
-             'remaining track is younger than the TTL and every track removed by expiry had reached it -- in every state '
-             'reached while no exception of a subscriber has left update()/cleanup(); a KeyError of a DELETED subscriber '
-             'never does), C13_never_removes_fresh (every operation from every state, also one left by an exception: only '
-             'tracks that reached the TTL are removed; the structural invariants hold afterwards), C13_no_ttl_no_expiry, '
-             'C13_invariants / C13_structural_invariants, C13_quiet_subscribers_give_trk_step, C13_oracle_is_spec are proved in '
-             'Coq by induction over unbounded histories. C13_statement_any_state (the same without the guard) stays visible and '
-             'is REFUTED (C13_refuted_after_callback_exception, C13_refuted_after_aborted_cleanup: after a CREATED subscriber '
-             'raised, or a DELETED subscriber raised a non-KeyError inside cleanup(), oldest_timestamp is no lower bound any '
-             'more and a later cleanup() returns early leaving an expired track) -- open known finding. ' + TIE,
+             'other exception escapes through insert/update/cleanup as in the Python; histories may assign a new TTL to '
+             'ttl_in_seconds, switch an ordered tracker to unordered and call the public insert_or_update() -- on an ordered tracker with timestamps that are not older than a track): C13_expiry_exact (after every cleanup() or update() at '
+             'time now that RETURNS -- from every reachable state, for the TTL in force at that moment, both modes and every '
+             'behaviour of the subscribers -- every remaining track is younger than the TTL and every track removed by expiry '
+             'had reached it), C13_never_removes_fresh (every operation, also one left by an exception: only tracks that reached '
+             'the TTL are removed; the invariants hold afterwards), C13_no_ttl_no_expiry, C13_invariants (in EVERY reachable '
+             'state: unique keys, oldest_timestamp cache is a lower bound, ordered mode implies sorted), '
+             'C13_configuration_constant / C13_configuration_operations (only the configuration operations change TTL and mode, '
+             'and they change nothing else), C13_quiet_subscribers_give_trk_step, C13_oracle_is_spec are proved in Coq by '
+             'induction over unbounded histories. The defect repaired by `fix: keep oldest_timestamp a lower bound of the tracks '
+             'when a subscriber callback raises` is witnessed on the kept unrepaired bodies '
+             '(C13_unrepaired_refuted_after_callback_exception, C13_unrepaired_refuted_after_aborted_cleanup). ' + TIE,
         note=BASE_NOTE + 'explicit clock as in C12; what the callbacks do is data of each operation (rules carried by the '
-             'history); callbacks that call back into the tracker are outside the model; the iteration order of the set of '
-             'expired MMSIs is a parameter of the model (the theorems hold for every order, the check reads it off the '
-             "implementation's DELETED deliveries).",
+             'history); callbacks that call back into the tracker are outside the model; switching an unordered tracker to '
+             'ordered is outside the model; the iteration order of the set of expired MMSIs is a parameter of the model (the '
+             "theorems hold for every order, the check reads it off the implementation's DELETED deliveries).",
         design='DESIGN.md section 7, C13'),
     'C14': dict(
         technique='Coq proof over all reachable tracker states and all n (top-n predicate, newest-first order in unordered '
                   'mode, using the sortedness invariant in ordered mode) + differential check',
         text='C14_top_n (for every state reachable by any history -- whatever the subscriber callbacks did, also after '
-             'operations left by their exceptions -- and n >= 0 the result has min(n, |tracks|) distinct tracks of the table '
-             'and nothing left out is newer; unordered mode: sorted newest first) and the oracle-equals-spec lemmas are proved '
-             'in Coq. ' + TIE,
+             'operations left by their exceptions, also after an ordered tracker was switched to unordered by assigning '
+             'stream_is_ordered = False -- and n >= 0 the result has min(n, |tracks|) distinct tracks of the table and nothing '
+             'left out is newer; unordered mode: sorted newest first) and the oracle-equals-spec lemmas are proved in Coq. '
+             'Switching an unordered tracker to ordered is outside the model (and outside C14). ' + TIE,
         note=BASE_NOTE + 'explicit clock as in C12; callbacks may raise (general model of Model/Tracker.v), callbacks that '
              'call back into the tracker are outside the model.',
         design='DESIGN.md section 7, C14'),
@@ -223,7 +226,9 @@ CLAIMS = {
              '(each propagate call goes to the subscribers of its event in registration order up to and including the first '
              'one that raises), C15_delivery_reaches / _truncated / _complete, C15_exception_origin (an operation raises the '
              'ValueError of a rejected update or what the last callback it invoked raised; a KeyError of a DELETED callback '
-             'never leaves) are proved in Coq. ' + TIE,
+             'never leaves) are proved in Coq; configuration operations emit nothing. The check additionally demands that every '
+             'event reaches every subscriber registered at that moment (also one registered, removed and registered again) and no '
+             'removed one. ' + TIE,
         note=BASE_NOTE + 'subscriber list modelled as "always append" (attach never deduplicates, exercised in the '
              'correspondence only); the life cycle is judged on the propagate calls, i.e. on subscribers registered in front of '
              'any subscriber that raises (a subscriber behind a raising one does not receive the event -- C15_delivery_truncated; '
